@@ -244,6 +244,7 @@ type cllWalk struct {
 	// fwd: the history is inside the label set of the forward-rollout theorems (reconciles, workload progress,
 	// approvals, clock, crashes, faults, and new releases admitted only while the rollout is idle)
 	fwd bool
+	del bool
 }
 
 func cllNewWalk(c *Ctx, sc clScenario) *cllWalk {
@@ -295,6 +296,7 @@ func (w *cllWalk) do(label string) {
 		s.env()
 	case strings.HasPrefix(label, "release:"):
 		rev := label[len("release:"):]
+		w.del = false
 		w.fwd = pre.Ro != nil && pre.Ro.Phase == "Healthy" && pre.Ro.HasFinalizer && !pre.Ro.Deleting && pre.Wl != nil && !pre.Wl.InProgressAnno &&
 			pre.Br == nil && rev != pre.Wl.CurrentRevision
 		s.release(rev)
@@ -305,6 +307,10 @@ func (w *cllWalk) do(label string) {
 	case label == "crash":
 		s.restart()
 	case label == "delete":
+		// scope of the deletion theorems: a history legal for the forward theorems, then delete, then no new release
+		if w.fwd {
+			w.del = true
+		}
 		w.fwd = false
 		s.deleteRollout()
 	default:
@@ -317,7 +323,7 @@ func (w *cllWalk) do(label string) {
 		if s.panicked {
 			impl = J{"panic": "?"}
 		}
-		w.c.EmitAs("closedloop", "cstep", J{"scenario": w.sc, "hist": hist, "pre": pre, "label": emitLabel, "fwd": w.fwd}, impl)
+		w.c.EmitAs("closedloop", "cstep", J{"scenario": w.sc, "hist": hist, "pre": pre, "label": emitLabel, "fwd": w.fwd, "del": w.del}, impl)
 	}
 	if strings.HasPrefix(label, "release:") && w.releasedAt < 0 {
 		w.releasedAt = w.ticks
